@@ -308,6 +308,7 @@ func minus(a, b []int) []int {
 }
 
 type docCase struct {
+	sparseWhich, sparseTo int // sparseTo > 0: renumber one object of the read context (sparse.go)
 	name    string
 	doc     []byte
 	hazards []string
@@ -338,6 +339,12 @@ func runDoc(r *vh.Run, dc docCase, configs []wconf) {
 				r.OracleFail("panic:read", input(c), err.Error())
 			}
 			return
+		}
+		if dc.sparseTo > 0 {
+			if _, err := sparseCtx(ctx1, dc.sparseWhich, dc.sparseTo); err != nil {
+				r.Count("doc:sparse-not-applicable")
+				return
+			}
 		}
 		before, err := snap(ctx1, nil)
 		if err != nil {
@@ -607,6 +614,21 @@ func main() {
 		runDoc(r, docCase{name: fmt.Sprintf("dang-%d", i), doc: doc, desc: strings.Join(di.desc, ","), maxObjs: 100000}, configs)
 	}
 
+	// sparse numbering: one or several objects (catalog, page tree root, a page, a font, a content
+	// stream, the info dict, a free entry) carry numbers >= 65535 in a file of a few KiB, so that
+	// object numbers exceed every byte offset; every configuration
+	nSparse := r.Pick(16, 80)
+	for i := 0; i < nSparse; i++ {
+		kind := sparseKinds[i%len(sparseKinds)]
+		nrs := []int{sparseNumbers[(i/len(sparseKinds)+i)%len(sparseNumbers)]}
+		if kind == "several" {
+			nrs = sparseNumbers
+		}
+		doc, di := genDoc(r.Rand, genOpts{sparse: kind, sparseNr: nrs})
+		r.Count("gen:sparse:" + kind)
+		runDoc(r, docCase{name: fmt.Sprintf("sparse-%d", i), doc: doc, desc: strings.Join(di.desc, ","), maxObjs: 100000}, configs)
+	}
+
 	// corpus
 	files := corpusFiles()
 	budget := r.Pick(12<<20, 40<<20)
@@ -634,5 +656,13 @@ func main() {
 		}
 		r.Count("corpus-file")
 		runDoc(r, docCase{name: filepath.Base(f), doc: b, desc: "corpus", maxObjs: r.Pick(1500, 6000)}, cs)
+		if len(b) <= r.Pick(300<<10, 1<<20) {
+			// the same document with one object moved to a very large number, xref stream output
+			to := sparseNumbers[i%len(sparseNumbers)]
+			scs := []wconf{configs[1], configs[2], configs[(i*3)%len(configs)]}
+			r.Count("corpus-file-sparse")
+			runDoc(r, docCase{name: filepath.Base(f) + "+sparse", doc: b, desc: fmt.Sprintf("corpus, sparse which=%d to=%d", i%4, to),
+				maxObjs: r.Pick(1500, 6000), sparseWhich: i, sparseTo: to}, scs)
+		}
 	}
 }
